@@ -1081,3 +1081,18 @@ Proof.
     unfold rig_read_pixels, dfr8_put_full. rewrite A, B. unfold rview_of. cbn [rv_ctag rv_img_tag rv_img_ref].
     rewrite Hz, Z.eqb_refl. rewrite get_img_past_dfr8 by assumption. split; reflexivity.
 Qed.
+
+(* ------------------------------------------------------------- round 4: state kept between calls of the readers *)
+(** opening a different file leaves no annotation directory of the previous file behind; the same file keeps both *)
+Lemma dfan_open_no_stale_directory : forall (A : Type) (dirs : list A * list A),
+  dfan_open false dirs = ([], []) /\ dfan_open true dirs = dirs.
+Proof. intros. split; reflexivity. Qed.
+
+(** a caller that reads image after image with DF24getimage alone gets exactly the 24-bit images of the file, in order *)
+Lemma df24_sequence_is_the_24bit_images : forall groups, df24_sequence groups = filter (fun g => g =? 3) groups.
+Proof.
+  induction groups as [|g r IH]; [reflexivity |].
+  cbn [df24_sequence filter].
+  change (DF24getimage_steps_with_DF24getdims && DF24getdims_skips_other_groups) with true. cbv iota.
+  rewrite IH. destruct (g =? 3); reflexivity.
+Qed.
